@@ -190,3 +190,22 @@ def size(v):
     if isinstance(v, (list, tuple, set, frozenset)):
         return 1 + sum(size(x) for x in v)
     return 1
+
+
+def strict_eq(a, b):
+    """same type and same content at every position (a 'structural copy')"""
+    if type(a) is not type(b):
+        return False
+    if isinstance(a, dict):
+        if len(a) != len(b):
+            return False
+        for k, v in a.items():
+            hit = [k2 for k2 in b if type(k2) is type(k) and k2 == k]
+            if not hit or not strict_eq(v, b[hit[0]]):
+                return False
+        return True
+    if isinstance(a, (list, tuple)):
+        return len(a) == len(b) and all(strict_eq(x, y) for x, y in zip(a, b))
+    if isinstance(a, (set, frozenset)):
+        return len(a) == len(b) and all(any(strict_eq(x, y) for y in b) for x in a)
+    return a == b
